@@ -6,7 +6,8 @@
 (* The log must be a behaviour of Concurrent: every event is a step of its *)
 (* own request's machine and tags never cross.                             *)
 (*   Cases {ids}                       all requests of the round           *)
-(*   Call {case, sent} | MwEnter {case, i} | Handler {case} |              *)
+(*   Call {case, sent, tmpl, sec, tag} | MwEnter {case, i} |               *)
+(*   Auth {case, s, tok, ok} | Handler {case, tmpl, tag} |                 *)
 (*   Parse {case, ok, params} | Respond {case, type, value} |              *)
 (*   MwLeave {case, i} | Return {case, ok, type, value, panic}             *)
 (*   Race {reports}                    what the race detector printed      *)
@@ -20,7 +21,7 @@ Ev    == Trace[l]
 Is(e) == l <= Len(Trace) /\ Ev.ev = e
 
 NoV  == [t |-> "leaf", s |-> "-"]
-Idle == [pc |-> "idle", sent |-> NoV, resp |-> NoV, rtype |-> "", entered |-> 0, left |-> 0, tmpl |-> ""]
+Idle == [pc |-> "idle", sent |-> NoV, resp |-> NoV, rtype |-> "", entered |-> 0, left |-> 0, tmpl |-> "", sec |-> "", tag |-> "", authed |-> FALSE]
 Init == l = 1 /\ st = << >> /\ stats = [accepted |-> 0, nontrivial |-> 0, rejected |-> 0]
 
 Cases == /\ Is("Cases") /\ st' = [c \in SeqToSet(Ev.ids) |-> Idle]
@@ -29,13 +30,19 @@ Mine  == Ev.case \in DOMAIN st
 S     == st[Ev.case]
 
 Call == /\ Is("Call") /\ Mine /\ S.pc = "idle"
-        /\ st' = [st EXCEPT ![Ev.case] = [S EXCEPT !.pc = "called", !.sent = Ev.sent, !.tmpl = Ev.tmpl]]
+        /\ st' = [st EXCEPT ![Ev.case] = [S EXCEPT !.pc = "called", !.sent = Ev.sent, !.tmpl = Ev.tmpl, !.sec = Ev.sec, !.tag = Ev.tag]]
         /\ l' = l + 1 /\ UNCHANGED stats
 \* the template visible to middlewares and handler is the one of this request's operation
 MwEnter == /\ Is("MwEnter") /\ Mine /\ S.pc = "called" /\ Ev.i = S.entered + 1 /\ Ev.tmpl = S.tmpl
            /\ st' = [st EXCEPT ![Ev.case].entered = Ev.i]
            /\ l' = l + 1 /\ UNCHANGED stats
+\* isolation: the security check a request passes is the one its own operation requires, with its own credential
+Auth == /\ Is("Auth") /\ Mine /\ S.pc = "called" /\ ~S.authed /\ S.sec # ""
+        /\ Ev.s = S.sec /\ Ev.ok /\ (Ev.s \o "|" \o Ev.tok) = S.tag
+        /\ st' = [st EXCEPT ![Ev.case].authed = TRUE]
+        /\ l' = l + 1 /\ UNCHANGED stats
 Handler == /\ Is("Handler") /\ Mine /\ S.pc = "called" /\ Ev.tmpl = S.tmpl
+           /\ Ev.tag = S.tag /\ S.authed = (S.sec # "")
            /\ st' = [st EXCEPT ![Ev.case].pc = "handler"]
            /\ l' = l + 1 /\ UNCHANGED stats
 \* isolation: the handler of request c parses exactly what request c sent
@@ -58,7 +65,7 @@ Return == /\ Is("Return") /\ Mine /\ S.pc = "responded" /\ S.left = S.entered
 Race == /\ Is("Race") /\ Ev.reports = 0
         /\ stats' = [stats EXCEPT !.accepted = @ + 1]
         /\ l' = l + 1 /\ UNCHANGED st
-Step == Cases \/ Call \/ MwEnter \/ Handler \/ Parse \/ Respond \/ MwLeave \/ Return \/ Race
+Step == Cases \/ Call \/ MwEnter \/ Auth \/ Handler \/ Parse \/ Respond \/ MwLeave \/ Return \/ Race
 
 \* an unexplained event poisons only its own request; the rest of the log is still judged
 Skip == /\ l <= Len(Trace) /\ ~ENABLED Step
